@@ -248,3 +248,55 @@ silent("c05-errors-wrap-other-pkg", "C05",
        (SPLIT, "	if err = k.bank.SendCoins(ctx, from, toAddress, amount); err != nil {\n		return sdkerrors.Wrap(err, \"split vesting coins\")\n	}", "	if err = k.bank.SendCoins(ctx, from, toAddress, amount); err != nil {\n		return sdkerrors.Wrapf(err, \"split vesting coins %s\", from)\n	}"))
 silent("c05-withdraw-early-return", "C05",
        (VEST, "	if toWithdraw.GT(sdk.ZeroInt()) {\n		coinToSend := sdk.NewCoin(denom, toWithdraw)", "	if toWithdraw.IsPositive() {\n		coinToSend := sdk.NewCoin(denom, toWithdraw)"))
+
+# ---------------- C06 ----------------
+QPOOLS = "x/cfevesting/keeper/grpc_query_vesting_pools.go"
+fire("c06-table-after-only", "C06", ["C06.table"],
+     (VEST, "	if current.Equal(vestingPool.LockEnd) || current.After(vestingPool.LockEnd) {", "	if current.After(vestingPool.LockEnd) {"))
+fire("c06-table-initially-locked", "C06", ["C06.table"],
+     (VEST, "		return vestingPool.GetCurrentlyLocked()\n	}\n	return sdk.ZeroInt()", "		return vestingPool.InitiallyLocked\n	}\n	return sdk.ZeroInt()"))
+fire("c06-table-before-pays", "C06", ["C06.table"],
+     (VEST, "	if current.Equal(vestingPool.LockEnd) || current.After(vestingPool.LockEnd) {", "	if current.Equal(vestingPool.LockEnd) || current.After(vestingPool.LockStart) {"))
+silent("c06-table-not-before", "C06",
+       (VEST, "	if current.Equal(vestingPool.LockEnd) || current.After(vestingPool.LockEnd) {", "	if !current.Before(vestingPool.LockEnd) {"))
+fire("c06-query-own-clock", "C06", ["C06.sameoracle"],
+     (QPOOLS, "		withdrawable := CalculateWithdrawable(ctx.BlockTime(), *vesting)", "		withdrawable := CalculateWithdrawable(time.Now(), *vesting)"),
+     (QPOOLS, "import (\n	\"context\"\n", "import (\n	\"context\"\n	\"time\"\n"))
+fire("c06-query-own-comparison", "C06", ["C06.sameoracle"],
+     (QPOOLS, "		withdrawable := CalculateWithdrawable(ctx.BlockTime(), *vesting)", "		withdrawable := vesting.InitiallyLocked.Sub(vesting.Sent)"))
+fire("c06-outflow-without-account", "C06", ["C06.outflows"],
+     (VEST, "	_, err := k.newContinuousVestingAccount(ctx, toAddress, originalVesting, startTime.Unix(), vestingEnd.Unix())\n	if err != nil {", "	var err error\n	if !originalVesting.IsZero() {\n		_, err = k.newContinuousVestingAccount(ctx, toAddress, originalVesting, startTime.Unix(), vestingEnd.Unix())\n	}\n	if err != nil {"))
+fire("c06-extra-outflow", "C06", ["C06.outflows"],
+     (VEST, "	k.SetAccountVestingPools(ctx, accVestingPools)\n	return nil\n}", "	k.SetAccountVestingPools(ctx, accVestingPools)\n	if amount.IsZero() {\n		return k.bank.SendCoinsFromModuleToAccount(ctx, types.ModuleName, accAddress, sdk.NewCoins(sdk.NewCoin(denom, balance.Amount)))\n	}\n	return nil\n}"))
+
+# ---------------- C08 ----------------
+fire("c08-swap-restart-branches", "C08", ["C08.schedule"],
+     (VEST, "	if restartVesting {\n		err = k.newVestingAccount", "	if !restartVesting {\n		err = k.newVestingAccount"))
+fire("c08-start-lockend-end-now", "C08", ["C08.schedule"],
+     (VEST, "		err = k.newVestingAccount(ctx, toAccAddress, amount, vt.Free,\n			ctx.BlockTime().Add(vt.LockupPeriod), ctx.BlockTime().Add(vt.LockupPeriod).Add(vt.VestingPeriod))", "		err = k.newVestingAccount(ctx, toAccAddress, amount, vt.Free,\n			vestingPool.LockEnd, ctx.BlockTime().Add(vt.LockupPeriod).Add(vt.VestingPeriod))"))
+fire("c08-end-without-vesting-period", "C08", ["C08.schedule"],
+     (VEST, "ctx.BlockTime().Add(vt.LockupPeriod).Add(vt.VestingPeriod))", "ctx.BlockTime().Add(vt.LockupPeriod).Add(vt.LockupPeriod))"))
+fire("c08-free-on-transfer", "C08", ["C08.same", "C08.vested"],
+     (VEST, "	coinsToSend := sdk.NewCoins(coinToSend)\n	err = k.bank.SendCoinsFromModuleToAccount(ctx, types.ModuleName, toAddress, coinsToSend)", "	coinsToSend := sdk.NewCoins(sdk.NewCoin(denom, originalVestingAmount))\n	err = k.bank.SendCoinsFromModuleToAccount(ctx, types.ModuleName, toAddress, coinsToSend)"))
+fire("c08-round-up", "C08", ["C08.vested"],
+     (VEST, "originalVestingAmount := decimalAmount.Sub(decimalAmount.Mul(free)).TruncateInt()", "originalVestingAmount := decimalAmount.Sub(decimalAmount.Mul(free)).Ceil().TruncateInt()"))
+fire("c08-ignore-free", "C08", ["C08.vested"],
+     (VEST, "originalVestingAmount := decimalAmount.Sub(decimalAmount.Mul(free)).TruncateInt()", "originalVestingAmount := decimalAmount.TruncateInt()"))
+fire("c08-start-always-now", "C08", ["C08.schedule"],
+     (VEST, "	startTime := lockEnd\n	if lockEnd.Before(ctx.BlockTime()) {\n		startTime = ctx.BlockTime()\n	}", "	startTime := ctx.BlockTime()"))
+fire("c08-start-min", "C08", ["C08.schedule"],
+     (VEST, "	if lockEnd.Before(ctx.BlockTime()) {\n		startTime = ctx.BlockTime()", "	if lockEnd.After(ctx.BlockTime()) {\n		startTime = ctx.BlockTime()"))
+fire("c08-direct-end-shifted", "C08", ["C08.schedule"],
+     (VEST, "	acc, err := k.newContinuousVestingAccount(ctx, to, amount.Sort(), startTime, endTime)", "	acc, err := k.newContinuousVestingAccount(ctx, to, amount.Sort(), startTime, endTime+1)"))
+fire("c08-direct-transfer-other", "C08", ["C08.same"],
+     (VEST, "	err = bk.SendCoins(ctx, from, to, amount)", "	err = bk.SendCoins(ctx, from, to, amount.Add(amount...))"))
+fire("c08-account-other-address", "C08", ["C08.fresh"],
+     (VEST, "	baseAccount := k.account.NewAccountWithAddress(ctx, to)", "	baseAccount := k.account.NewAccountWithAddress(ctx, sdk.AccAddress(to.Bytes()[:1]))"))
+fire("c08-account-start-swapped", "C08", ["C08.fresh"],
+     (VEST, "	acc := vestingtypes.NewContinuousVestingAccountRaw(baseVestingAccount, startTime)", "	acc := vestingtypes.NewContinuousVestingAccountRaw(baseVestingAccount, vestingEnd)"))
+silent("c08-times-named-first", "C08",
+       (VEST, "		err = k.newVestingAccount(ctx, toAccAddress, amount, vt.Free,\n			ctx.BlockTime().Add(vt.LockupPeriod), ctx.BlockTime().Add(vt.LockupPeriod).Add(vt.VestingPeriod))", "		lockEnd := ctx.BlockTime().Add(vt.LockupPeriod)\n		vestEnd := lockEnd.Add(vt.VestingPeriod)\n		err = k.newVestingAccount(ctx, toAccAddress, amount, vt.Free, lockEnd, vestEnd)"))
+silent("c08-max-reversed-operands", "C08",
+       (VEST, "	startTime := lockEnd\n	if lockEnd.Before(ctx.BlockTime()) {\n		startTime = ctx.BlockTime()\n	}", "	startTime := ctx.BlockTime()\n	if !lockEnd.Before(ctx.BlockTime()) {\n		startTime = lockEnd\n	}"))
+silent("c08-params-renamed", "C08",
+       (VEST, "func (k Keeper) newVestingAccount(ctx sdk.Context, toAddress sdk.AccAddress, amount math.Int, free sdk.Dec,\n	lockEnd time.Time,\n	vestingEnd time.Time) error {", "func (k Keeper) newVestingAccount(ctx sdk.Context, toAddress sdk.AccAddress, amount math.Int, freeFraction sdk.Dec,\n	lockEnd time.Time,\n	vestingEnd time.Time) error {\n	free := freeFraction"))
